@@ -187,6 +187,7 @@ struct World
 	}
 
 	bool early_io = false;
+	bool nat = false;
 	bool traffic_enabled = true;
 	bool move_after_connect = false;
 	// (re)start reads and writes on both sides once both ends are up
@@ -248,16 +249,18 @@ void check_mtu_and_integrity(World& w)
 		if (wire.count(e.probe))
 		{
 			++segs;
+			if (e.size > w.mtu && w.nat)
+				R().violation("C13", "nat-changes-segmentation", fmt("with the connector behind a NAT a segment of %d payload bytes was sent on a path whose MTU (for the real endpoints) is %d", e.size, w.mtu));
 			if (e.size > w.mtu)
 				R().violation("C20", w.net.wire_probe[w.A] == e.probe ? "segment-over-mtu:connector" : "segment-over-mtu:accepted-side"
 					, fmt("segment seq %" PRIu64 " with %d payload bytes on a path whose MTU is %d (%s)", e.seq_nr, e.size, w.mtu
 						, w.net.wire_probe[w.A] == e.probe ? "sent by the connecting socket" : "sent by the accepted socket"));
 			if (e.size == w.mtu) ++full;
-			sent[std::make_pair(e.from, e.seq_nr)].push_back(&e);
+			sent[std::make_pair(w.nat ? 0 : e.from, e.seq_nr)].push_back(&e);
 		}
 		else if (node.count(e.probe))
 		{
-			auto it = sent.find(std::make_pair(e.from, e.seq_nr));
+			auto it = sent.find(std::make_pair(w.nat ? 0 : e.from, e.seq_nr));
 			bool ok = false;
 			if (it != sent.end())
 				for (auto const* s : it->second) if (s->size == e.size && s->hash == e.hash && s->overhead == e.overhead) ok = true;
@@ -640,6 +643,17 @@ void case_c20(Args const& a, std::uint64_t c)
 	w.net.def_mtu = 1475;
 	w.net.set_mtu(w.A, w.B, w.mtu); // per-pair, symmetric
 	w.desc = fmt("C20 mtu(A,B)=%d (default elsewhere 1475)", w.mtu);
+	if (rng.coin(1, 3))
+	{
+		// the connector sits behind a NAT whose external address has a different MTU towards the server: the
+		// path MTU "for the two endpoints" is still the one of the real addresses
+		ip::address const ext = addr("66.6.6.6");
+		w.net.nat_ext[w.A] = ext;
+		int const other = rng.coin() ? 1475 : int(rng.range(1, 9000));
+		w.net.set_mtu(w.B, ext, other);
+		w.nat = true;
+		w.desc += fmt(" client behind NAT, mtu(B,nat)=%d", other);
+	}
 	route_setup(w, false, true, 2);
 	w.build();
 	w.move_after_connect = rng.coin(1, 3);
